@@ -527,3 +527,39 @@ func confinedToGuardedGoroutine(p *Prog, fn *ssa.Function, pred func(Guard) bool
 	}
 	return true
 }
+
+// c17SplitHelpers: the package-level functions (no receiver) that are reached by static calls from the `split` methods
+// of the pending-batch implementations (recognised by signature, see batchMethodKind).
+func c17SplitHelpers(funcs []*ssa.Function) map[*ssa.Function]bool {
+	out := map[*ssa.Function]bool{}
+	inSet := map[*ssa.Function]bool{}
+	for _, fn := range funcs {
+		inSet[fn] = true
+	}
+	var visit func(fn *ssa.Function, d int)
+	visit = func(fn *ssa.Function, d int) {
+		if d > 6 {
+			return
+		}
+		for _, f := range withAnon(fn) {
+			allInstrs(f, func(in ssa.Instruction) {
+				ci, ok := in.(ssa.CallInstruction)
+				if !ok {
+					return
+				}
+				cf := staticCalleeFn(ci)
+				if cf == nil || !inSet[cf] || cf.Parent() != nil || recvNamedOfFn(cf) != nil || out[cf] {
+					return
+				}
+				out[cf] = true
+				visit(cf, d+1)
+			})
+		}
+	}
+	for _, fn := range funcs {
+		if fn.Parent() == nil && recvNamedOfFn(fn) != nil && funcObj(fn) != nil && batchMethodKind(funcObj(fn)) == "split" {
+			visit(fn, 0)
+		}
+	}
+	return out
+}
